@@ -1288,7 +1288,10 @@ def _concat(data: list[Any]):
 
 def _pad(data: Any, pad: Any, batch_size: int):
   if hasattr(data, '__array__'):
-    return np.pad(data, (0, batch_size - data.shape[0]), constant_values=pad)
+    # Only pad the batch (first) dimension: a bare (before, after) pair would
+    # be broadcast to every axis and also widen each row of an n-d column.
+    pad_width = [(0, batch_size - data.shape[0])] + [(0, 0)] * (data.ndim - 1)
+    return np.pad(data, pad_width, constant_values=pad)
   elif isinstance(data, list):
     return list(mit.padded(data, pad, batch_size))
   elif isinstance(data, tuple):
